@@ -83,6 +83,19 @@ func checkFilter(r *Run, prog *Program, a *Anchors, pfx string) {
 				}
 			}
 			if rv == nil {
+				if isNil, known := evalBool(sm.St, &Sym{K: sCmp, Op: token.EQL, A: pData, B: nilSym()}); known && isNil {
+					// the untyped nil input, recognised before reflecting: the one input of no kind at all
+					noEval := true
+					for _, ev := range sm.Events() {
+						if ev.Instr != nil && ev.Callee == evalM {
+							noEval = false
+						}
+					}
+					classes["other"]++
+					okNil := res.IsNil() && errClass(sm, err) == "nonnil" && noEval
+					r.Check(pfx+".filter-path", sc.name+":other", pos, okNil, "a nil input must be (nil, error) without evaluating anything"+trail)
+					continue
+				}
 				r.Check(pfx+".filter-path", sc.name+":no-valueof", pos, false, "the input is not inspected through reflect.ValueOf(data)"+trail)
 				continue
 			}
